@@ -55,12 +55,26 @@ def comp_module(name):
     return importlib.import_module(spec)
 
 
+def _with_oracle(mod, pid, recs):
+    """evaluate the property oracle where the record was produced (in the worker), not in the parent"""
+    if pid is None:
+        return recs
+    oracle = mod.ORACLES.get(pid)
+    for r in recs:
+        try:
+            r.oracle_result = oracle(r) if oracle is not None else []
+        except Exception as e:
+            r.oracle_result = ["oracle raised %s: %s" % (type(e).__name__, e)]
+    return recs
+
+
 def _run_chunk(args):
-    comp, cases = args
+    comp, cases = args[0], args[1]
+    pid = args[2] if len(args) > 2 else None
     mod = comp_module(comp)
     out = []
     if hasattr(mod, "run_batch"):
-        return mod.run_batch(cases)
+        return _with_oracle(mod, pid, mod.run_batch(cases))
     for c in cases:
         try:
             r = mod.run(c)
@@ -73,14 +87,14 @@ def _run_chunk(args):
             r = Record(comp, {"harness_exception": "%s: %s" % (type(e).__name__, e)}, {})
             r.err = "harness: " + traceback.format_exc()[-1500:]
             out.append(r)
-    return out
+    return _with_oracle(mod, pid, out)
 
 
-def run_cases(comp, cases, pool):
+def run_cases(comp, cases, pool, pid=None):
     if pool is None or len(cases) < 64:
-        return _run_chunk((comp, cases))
-    k = max(1, len(cases) // (pool._processes * 2))
-    chunks = [(comp, cases[i:i + k]) for i in range(0, len(cases), k)]
+        return _run_chunk((comp, cases, pid))
+    k = max(1, len(cases) // (pool._processes * 4))
+    chunks = [(comp, cases[i:i + k], pid) for i in range(0, len(cases), k)]
     out = []
     for part in pool.map(_run_chunk, chunks):
         out.extend(part)
@@ -260,12 +274,12 @@ def main_check(pid, tier, seed, write_evidence=True):
             if cov is not None and k_cov:
                 cov.start()
                 try:
-                    recs = _run_chunk((comp, cases[:k_cov]))
+                    recs = _run_chunk((comp, cases[:k_cov], pid))
                 finally:
                     cov.stop()
-                recs = recs + run_cases(comp, cases[k_cov:], pool)
+                recs = recs + run_cases(comp, cases[k_cov:], pool, pid)
             else:
-                recs = run_cases(comp, cases, pool)
+                recs = run_cases(comp, cases, pool, pid)
             mism = correspond(comp, recs)
             oracle = mod.ORACLES[pid]
             cstat = {"records": len(recs), "mismatches": 0, "oracle_failures": 0, "nontrivial": 0, "impl_errors": 0}
@@ -275,10 +289,13 @@ def main_check(pid, tier, seed, write_evidence=True):
                     stats["tags"][comp + ":" + tg] = stats["tags"].get(comp + ":" + tg, 0) + 1
                 if r.err is not None:
                     cstat["impl_errors"] += 1
-                try:
-                    v = oracle(r)
-                except Exception as e:
-                    v = ["oracle raised %s: %s" % (type(e).__name__, e)]
+                if hasattr(r, "oracle_result"):
+                    v = r.oracle_result
+                else:
+                    try:
+                        v = oracle(r)
+                    except Exception as e:
+                        v = ["oracle raised %s: %s" % (type(e).__name__, e)]
                 if r.foreign:
                     m = list(m or []) + ["random source outside the recorded primitives: %s" % (r.foreign[:2],)]
                 if m is None:
@@ -318,16 +335,18 @@ def main_check(pid, tier, seed, write_evidence=True):
                 cases = list(mod.gen(rng, budget, **gargs))
                 pool2 = pool or mp.get_context("fork").Pool(min(16, os.cpu_count() or 1))
                 try:
-                    recs = run_cases(comp, cases, pool2)
+                    recs = run_cases(comp, cases, pool2, pid)
                 finally:
                     if pool is None:
                         pool2.terminate()
                 searched += len(recs)
                 for r in recs:
-                    try:
-                        v = oracle(r)
-                    except Exception as e:
-                        v = ["oracle raised %s: %s" % (type(e).__name__, e)]
+                    v = getattr(r, "oracle_result", None)
+                    if v is None:
+                        try:
+                            v = oracle(r)
+                        except Exception as e:
+                            v = ["oracle raised %s: %s" % (type(e).__name__, e)]
                     if v:
                         violations.append((comp, r, v, ["found by the failing-input search"]))
                         break
